@@ -149,6 +149,15 @@ func C20(tier string) int {
 	addQ(`count(from reports where anyOf(roles) = "a" sort by f, b desc limit 1) = 0`, []string{"reports", "roles", "f", "b"})
 	addQ(`count(from reports where count(from reports where true sort by nn) > 0 sort by id, s) > 0`, []string{"reports", "nn", "s"})
 	addQ(`not isEmpty(from reports where i > 4 sort by id, f)`, []string{"reports", "i", "f"})
+	// elements of a map symbol, one and several levels below it, in every position a symbol can take
+	for _, el := range []string{"tags.k", "tags.k.sub", "tags.k.sub.leaf", "tags.tags", "tags.id.s"} {
+		addQ(el+` = "v"`, []string{el})
+		addQ(el+` != null`, []string{el})
+		addQ(`not (`+el+` contains "v") or s = "a"`, []string{el, "s"})
+		addQ(el+` in ["v", "w"] and i = 4`, []string{el, "i"})
+		addQ(`true sort by `+el+` desc, s`, []string{el, "s"})
+		addQ(`count(from reports where `+el+` = "v") > 0`, []string{"reports", el})
+	}
 	if !thorough {
 		// quick: every 3rd query of the bulk classes, all of the rare ones
 		var keep []qc
